@@ -72,8 +72,14 @@ INDIRECT = {
     'pierce_at_timeout': [(PINNED_INDIRECT_TIMEOUT, 'ppf', 'ours')],
     # ... and just after it (the waiter has been cancelled in this loop iteration, its done-callback has not run yet)
     'pierce_after_timeout': [(PINNED_INDIRECT_TIMEOUT, 'ppf', 'ours')],
+    # ... and every alignment around it (discriminant `timeout_alignment`): 'pre' = the pierce is I/O that is ready when the loop
+    # wakes up for the deadline, i.e. it is handled AHEAD of the time-out's timer callback (the ticket future is resolved when the
+    # time-out fires); 0 = its arrival is queued just ahead of the time-out callback, handled right behind it; k >= 1 = it arrives
+    # k loop iterations behind the time-out callback (time-out being handled, waiter cancelled but not yet removed, removed, ...)
+    'pierce_around_timeout': [(PINNED_INDIRECT_TIMEOUT, 'ppf', 'ours')],
 }
-TIES = ('pierce_at_timeout', 'pierce_after_timeout')
+TIES = ('pierce_at_timeout', 'pierce_after_timeout', 'pierce_around_timeout')
+TIMEOUT_ALIGN = ['pre', 0, 1, 2, 3, 4, 5, 6, 7, 8]
 SERVER_FAULT = {'send_fails': 'error', 'send_hangs': 'hang'}
 
 
@@ -151,16 +157,16 @@ class Event:
         self.after = None        # once the loop has gone idle in that instant: (indirect attempt over?, socket closed?)
 
 
-def h_connect(c, mode, direct, indirect, addr='given', typ='P', decoy=False, cancel=None, k_lo=0, k_hi=0, pin=False, hops=None):
+def h_connect(c, mode, direct, indirect, addr='given', typ='P', decoy=False, cancel=None, k_lo=0, k_hi=0, pin=False, hops=None, talign=None):
     loop = SLoop()
     try:
         with environment(c, loop) as (g, wr, tap):
-            _connect(c, loop, g, wr, tap, mode, direct, indirect, addr, typ, decoy, cancel, k_lo, k_hi, pin, hops)
+            _connect(c, loop, g, wr, tap, mode, direct, indirect, addr, typ, decoy, cancel, k_lo, k_hi, pin, hops, talign)
     finally:
         loop.cleanup()
 
 
-def _connect(c, loop, g, wr, tap, mode, direct, indirect, addr, typ, decoy, cancel, k_lo, k_hi, pin, hops):
+def _connect(c, loop, g, wr, tap, mode, direct, indirect, addr, typ, decoy, cancel, k_lo, k_hi, pin, hops, talign):
     sig = [mode, direct, indirect]
     d_outcome, d_delay, d_drain = DIRECT[direct]
     script = INDIRECT[indirect]
@@ -267,6 +273,10 @@ def _connect(c, loop, g, wr, tap, mode, direct, indirect, addr, typ, decoy, canc
         span = [0] if mode == 'fallback' else (list(hops) if hops is not None else list(range(TIE_HOPS)))
         tie_hops = c.pick(span, 'tie_alignment') if len(span) > 1 else span[0]
 
+    t_align = None
+    if indirect == 'pierce_around_timeout':
+        t_align = c.pick(list(talign) if talign is not None else TIMEOUT_ALIGN, 'timeout_alignment')
+
     def attempt_script(a):
         delay = d_delay
         if delay is None:       # 'tie' / 'tie_refused'
@@ -284,6 +294,8 @@ def _connect(c, loop, g, wr, tap, mode, direct, indirect, addr, typ, decoy, canc
     def fire(ev):
         ev.fired_at = loop.time()
         ev.waiting = not task.done() and any(not f.done() for f in net._expected_connection_futures.values())
+        if t_align == 'pre' and ev.waiting and loop.time() == S['t_ctp'] + ev.offset:
+            c.reach('pierce_ready_ahead_of_the_timeout_callback')
         if pin:
             c.assume(matches_ours(ev))
         tk = wire_ticket() if ev.ticket is OURS else ev.ticket
@@ -315,13 +327,24 @@ def _connect(c, loop, g, wr, tap, mode, direct, indirect, addr, typ, decoy, canc
             if S['t_ctp'] is None:
                 S['t_ctp'] = loop.time()
                 for ev in events:
-                    if indirect == 'pierce_after_timeout':
-                        # same virtual instant, but registered after the code under test has armed its own time-out
+                    if t_align == 'pre':
+                        loop.io_at(loop.time() + ev.offset, lambda ev=ev: fire(ev))
+                    elif indirect == 'pierce_after_timeout' or t_align not in (None, 0):
+                        # same virtual instant, but registered after the code under test has armed its own time-out (and, for
+                        # alignment k, k - 1 further loop iterations behind)
                         hop = [8]
+                        behind = [(t_align or 1) - 1]
+
+                        def arrive(ev=ev):
+                            if behind[0]:
+                                behind[0] -= 1
+                                loop.call_soon(arrive)
+                            else:
+                                fire(ev)
 
                         def later(ev=ev):
                             hop[0] -= 1
-                            loop.call_soon(later) if hop[0] else loop.call_later(ev.offset, fire, ev)
+                            loop.call_soon(later) if hop[0] else loop.call_later(ev.offset, arrive)
                         loop.call_soon(later)
                     else:
                         loop.call_later(ev.offset, fire, ev)
@@ -783,7 +806,8 @@ META = {
         '0..11 loop iterations into that instant (tie_alignment: direct first, indirect first, both finished in one wake-up of the race) / refused fast / slowly / '
         'no answer until the time-out / PeerInit write error / PeerInit write hangs', 'indirect attempt: pierce fast / slowly, CannotConnect '
         'fast (then pierce) / slowly, silence, ConnectToPeer write error / hangs, stranger then pierce, pierce then CannotConnect, pierce in '
-        'the instant of the time-out (before / after its handling)', 'listening port (clear / obfuscated) of every incoming connection',
+        'the instant of the time-out (before / after its handling; pierce_around_timeout: alignment pre = ready ahead of the time-out '
+        'callback, 0 = right behind it, 1..8 loop iterations behind it)', 'listening port (clear / obfuscated) of every incoming connection',
         'connection type P / F / D', 'address given by the caller or fetched from the server; answer with or without the optional '
         'obfuscated-port fields; with or without a preceding foreign answer', 'obfuscation preference and caller obfuscate flag (booleans)',
         'cancellation: none / at each idle instant / before each loop step (one fork per step)',
@@ -823,7 +847,9 @@ def _requires(mode, d, i, addr):
     req = ['request_started', 'scenario_end', 'direct_attempted'] + (['port_beyond_65535_rejected'] if addr == 'given' else [])
     hangs = (mode, i, addr) == ('race', 'send_fails', 'server')      # (unrepaired tree: the request never ends there)
     if d == 'tie' or i in TIES:
-        return req + ([] if hangs else ['request_ended'])       # deliberate ties: either outcome is fine
+        # deliberate ties: either outcome is fine
+        return req + ([] if hangs else ['request_ended']) + (
+            ['pierce_ready_ahead_of_the_timeout_callback'] if i == 'pierce_around_timeout' and d not in DIRECT_OK and not hangs else [])
     if d == 'tie_refused':
         return req + ['request_ended'] + (['returned_indirect'] if i in PIERCING and not hangs else [])
     if not hangs:
@@ -849,9 +875,12 @@ def jobs(tier):
     def job(h, fn, req, **p):
         out.append({'harness': h, 'fn': fn, 'params': p, 'requires': req})
 
-    def few(d, span=(0, 1, 2, 3)):
-        # the full range of tie alignments is explored in grid (1); the other grids use the ones around the hand-over
-        return {'hops': list(span)} if d in ('tie', 'tie_refused') else {}
+    def few(d, span=(0, 1, 2, 3), i=None, tspan=('pre', 0, 1, 2)):
+        # the full range of tie / time-out alignments is explored in grid (1); the other grids use the ones around the hand-over
+        out = {'hops': list(span)} if d in ('tie', 'tie_refused') else {}
+        if i == 'pierce_around_timeout':
+            out['talign'] = list(tspan)
+        return out
     job('select_port', h_select_port, ['selected'])
     for o in BACK:
         for shape in ('full', 'short'):
@@ -859,7 +888,8 @@ def jobs(tier):
                 ['pierced'] if o in ('ok', 'ok_slow') else []),
                 outcome=o, shape=shape)
     directs = QD + ([] if q else ['tie', 'tie_refused', 'refused_slow', 'init_hang'])
-    indirects = QI + ([] if q else ['send_hangs', 'stranger_then_pierce', 'pierce_then_cannot', 'pierce_at_timeout', 'pierce_after_timeout'])
+    indirects = QI + ([] if q else ['send_hangs', 'stranger_then_pierce', 'pierce_then_cannot', 'pierce_at_timeout', 'pierce_after_timeout',
+                                    'pierce_around_timeout'])
     typs = ['P', 'F', 'D']
     n = 0
     # (1) every outcome pair in both modes, address given by the caller (symbolic ip / port / obfuscate flag)
@@ -873,6 +903,11 @@ def jobs(tier):
         for mode in ('fallback', 'race'):
             job('connect', h_connect, _requires(mode, 'refused', 'pierce_after_timeout', 'given'), mode=mode, direct='refused',
                 indirect='pierce_after_timeout', addr='given', typ='P')
+            # the pierce arrives in the instant of the indirect time-out, every alignment (ready ahead of the time-out callback ..
+            # 8 loop iterations behind it); either outcome is fine there, an error WITH a connection left is not
+            for d, typ in (('refused', 'D'), ('init_fail', 'F')):
+                job('connect', h_connect, _requires(mode, d, 'pierce_around_timeout', 'given'), mode=mode, direct=d,
+                    indirect='pierce_around_timeout', addr='given', typ=typ)
         # both attempts end in one instant of the race, every alignment of the two within that instant (direct first, indirect
         # first, both finished in ONE wake-up of the race): two successes; success + CannotConnect; refusal + pierce
         for d, i, typ in (('tie', 'pierce_fast', 'P'), ('tie', 'cannot_fast', 'F'), ('tie_refused', 'pierce_fast', 'D')):
@@ -887,25 +922,26 @@ def jobs(tier):
                 for decoy in ([bool(n % 2)] if q else [False, True]):
                     job('connect', h_connect, [r for r in _requires(mode, d, i, 'server') if r != 'direct_attempted' or i != 'send_fails' or mode != 'race']
                         + ([] if (mode, i) == ('race', 'send_fails') else ['port_beyond_65535_rejected']),
-                        mode=mode, direct=d, indirect=i, addr='server', typ=typs[n % 3], decoy=decoy, **few(d))
+                        mode=mode, direct=d, indirect=i, addr='server', typ=typs[n % 3], decoy=decoy, **few(d, i=i))
                 n += 1
     # (3) cancellation of the request: at every instant at which the loop goes idle ...
     creq = ['request_started', 'cancel_injected', 'scenario_end']
+    cindirects = [i for i in indirects if i != 'pierce_around_timeout']     # (pierce_at / pierce_after_timeout stay in these grids)
     for mode in ('fallback', 'race'):
         for d in directs:
-            for i in indirects:
+            for i in cindirects:
                 job('connect', h_connect, creq, mode=mode, direct=d, indirect=i, addr='given', typ=typs[n % 3], cancel='idle', k_lo=0, k_hi=16,
-                    pin=True, **few(d, (1, 2)))
+                    pin=True, **few(d, (1, 2), i, ('pre', 0, 1)))
                 n += 1
     # ... and before every single loop step
     cd = ['fast', 'hang', 'init_hang'] if q else [d for d in directs if d != 'tie_refused']
-    ci = ['pierce_fast', 'silence'] if q else indirects
+    ci = ['pierce_fast', 'silence'] if q else cindirects
     for mode in ('fallback', 'race'):
         for d in cd:
             for i in ci:
                 for a in (['given'] if q else ['given', 'server']):
                     job('connect', h_connect, creq, mode=mode, direct=d, indirect=i, addr=a, typ=typs[n % 3], cancel='step', k_lo=0,
-                        k_hi=48, pin=True, **few(d, (1, 2)))
+                        k_hi=48, pin=True, **few(d, (1, 2), i, ('pre', 0, 1)))
                 n += 1
     return out
 
